@@ -1099,6 +1099,15 @@ func (s *c16Session) line(op string) {
 			}
 		}
 	}
+	if w[0] == "calcc" && len(w) == 5 && c16IsInt(w[1], false) && c16IsInt(w[2], false) && c16IsInt(w[3], false) {
+		k, _ := strconv.Atoi(w[1])
+		from, _ := strconv.Atoi(w[2])
+		to, _ := strconv.Atoi(w[3])
+		if ents, ok := c16CalcParse(w[4]); ok && k >= 2 && k <= 6 && from < k && to < k && from != to {
+			s.calcCopy(op, k, from, to, ents)
+			return
+		}
+	}
 	if w[0] == "reset" {
 		s.close()
 		s.f = xl.NewFile()
@@ -1373,6 +1382,60 @@ func (s *c16Session) calc(op string, k, id int, ents []c16CalcEnt) {
 	}
 }
 
+// calcc: CopySheet(from, to) on a fresh k-sheet workbook with a calculation chain: copySheet drops the entries
+// of the overwritten sheet (Lean: copySheetCalc, calcchain_copy_target).  Stateless.
+func (s *c16Session) calcCopy(op string, k, from, to int, ents []c16CalcEnt) {
+	r := s.r
+	f := xl.NewFile()
+	defer f.Close()
+	for j := 2; j <= k; j++ {
+		_, _ = f.NewSheet("Sheet" + strconv.Itoa(j))
+	}
+	id := to + 1
+	setup := f.GetSheetMap()[id] == f.GetSheetName(to) && len(f.GetSheetList()) == k
+	var b strings.Builder
+	b.WriteString(`<calcChain xmlns="http://schemas.openxmlformats.org/spreadsheetml/2006/main">`)
+	for _, e := range ents {
+		fmt.Fprintf(&b, `<c r="%s" i="%d"/>`, e.r, e.i)
+	}
+	b.WriteString(`</calcChain>`)
+	f.CalcChain = nil // see calc
+	f.Pkg.Store("xl/calcChain.xml", []byte(b.String()))
+	res := func() (res string) {
+		defer func() {
+			if recover() != nil {
+				res = "PANIC"
+			}
+		}()
+		if err := f.CopySheet(from, to); err != nil {
+			return "ERR"
+		}
+		if f.CalcChain == nil {
+			return "nil"
+		}
+		var got []c16CalcEnt
+		for _, c := range f.CalcChain.C {
+			got = append(got, c16CalcEnt{c.I, c.R})
+		}
+		return c16CalcShow(got)
+	}()
+	ln := r.Op(op, res)
+	r.Stat("op:calcc:" + map[bool]string{true: "emptied", false: "kept"}[res == "nil"])
+	if !setup {
+		r.Fail("calc:setup", fmt.Sprintf("%s: sheet index %d does not have id %d", op, to, id), ln, op)
+		return
+	}
+	var want []c16CalcEnt
+	for _, e := range ents {
+		if !(e.i == id || (e.i == 0 && e.r == "")) {
+			want = append(want, e)
+		}
+	}
+	if w := c16CalcShow(want); res != w {
+		r.Fail("calc:copy-entries", fmt.Sprintf("%s left the calculation chain %s, expected %s (the entries of every sheet but the target, in order)", op, res, w), ln, op)
+	}
+}
+
 func (s *c16Session) reopen() {
 	if s.f == nil || s.fails > 0 {
 		return
@@ -1626,13 +1689,17 @@ func runC16(r *Run, rng *Rng, replay string) {
 			e = "-"
 		}
 		calcLines = append(calcLines, fmt.Sprintf("calc %d %d %s", k, id, e))
+		if i%2 == 0 {
+			// CopySheet(from, to): from = id-1, to = the next index (no extra randomness)
+			calcLines = append(calcLines, fmt.Sprintf("calcc %d %d %d %s", k, id-1, id%k, e))
+		}
 	}
 	for _, l := range calcLines {
 		s.line(l)
 		r.Case(l, true)
 	}
 	// malformed lines: the driver must answer bad-op
-	for _, l := range []string{"new", "new zz", "copy a b", "vis 61", "frobnicate 1", "act x", "setc 61 -3", "defn x 61", "gidx zz", "gnm -1", "gnm 1234567890", "gidx 5368656574", "gnm 0", "gnm 7", "calc 1 1 -", "calc 3 4 -", "calc 7 1 -", "calc 2 1 1", "calc 2 1 x.41", "calc 2 1"} {
+	for _, l := range []string{"new", "new zz", "copy a b", "vis 61", "frobnicate 1", "act x", "setc 61 -3", "defn x 61", "gidx zz", "gnm -1", "gnm 1234567890", "gidx 5368656574", "gnm 0", "gnm 7", "calc 1 1 -", "calc 3 4 -", "calc 7 1 -", "calc 2 1 1", "calc 2 1 x.41", "calc 2 1", "calcc 2 1 1 -", "calcc 3 0 3 -", "calcc 2 0 1"} {
 		s.line(l)
 	}
 	for _, x := range r.opsSample(6) {
